@@ -897,7 +897,18 @@ func (w *c01World) wild(c *kernel.RunCtx, data []byte) {
 	b := append([]byte(nil), data...)
 	for k := 1 + c.Choose(3); k > 0 && len(b) > 0; k-- {
 		off := c.Choose(len(b))
-		switch c.Pick(3, 2, 2, 2, 1) {
+		switch c.Pick(3, 2, 2, 2, 1, 2) {
+		case 5:
+			// a one-byte count or length becomes a nine-byte one whose low half is the old value and whose high half
+			// is not zero: 2^32 x h + k elements are claimed, k are there
+			if b[off] < 0xfd {
+				wide := []byte{0xff, b[off], 0, 0, 0, byte(1 + c.Choose(255)), 0, 0, 0}
+				if c.Bool(1, 3) {
+					wide[8] = byte(1 + c.Choose(255))
+				}
+				b = append(b[:off:off], append(wide, b[off+1:]...)...)
+				c.Count("probe.wild_count_widened_with_high_half", 1)
+			}
 		case 0:
 			b[off] ^= 1 << uint(c.Choose(8))
 		case 1:
